@@ -180,3 +180,11 @@ def boxed_mask(m, kind):
     if kind == 'int_list':
         return [int(v) for v in m]
     return np.array(m, dtype=bool)
+
+
+def other_pair(b, q):
+    """A (biort, qshift) pair of names that differs from (b, q) in both members (same tap counts where a twin exists)."""
+    ob = {'near_sym_a': 'legall', 'legall': 'near_sym_a', 'near_sym_b': 'antonini', 'antonini': 'near_sym_b'}.get(b, 'near_sym_a')
+    oq = {'qshift_06': 'qshift_a', 'qshift_a': 'qshift_06', 'qshift_b': 'qshift_c', 'qshift_c': 'qshift_d',
+          'qshift_d': 'qshift_c'}.get(q, 'qshift_a')
+    return ob, oq
